@@ -198,7 +198,7 @@ func c10Profiles(tier Tier) []*explore.Profile {
 			return acts
 		},
 	}
-	return []*explore.Profile{t, shapes, other}
+	return []*explore.Profile{t, shapes, other, highNonceProfile("high-nonce", tier, mk(), 2)}
 }
 
 func init() { LedgerProfiles["C10"] = c10Profiles }
@@ -210,7 +210,7 @@ func C10(tier Tier) int {
 		"attached-call-checked:ESDTNFTTransfer:sender", "attached-call-checked:ESDTNFTTransfer:dest", "attached-call-checked:MultiESDTNFTTransfer:sender",
 		"attached-call-checked:MultiESDTNFTTransfer:dest", "parser-agrees:ESDTTransfer:sender", "parser-agrees:ESDTTransfer:dest",
 		"parser-agrees:ESDTNFTTransfer:sender", "parser-agrees:ESDTNFTTransfer:dest", "parser-agrees:MultiESDTNFTTransfer:sender", "parser-agrees:MultiESDTNFTTransfer:dest",
-		"dest:SetUserName:ok", "dest:ESDTNFTCreateRoleTransfer:ok"}
+		"dest:SetUserName:ok", "dest:ESDTNFTCreateRoleTransfer:ok", "high-nonce-reached"}
 	return RunLedger("C10", tier, c10Profiles(tier), req)
 }
 
